@@ -10,7 +10,6 @@ hashlib.sha384, and the descriptor reference in vlib/ref/descriptor.py (self-tes
 import asyncio
 import binascii
 import collections
-import concurrent.futures
 import copy
 import hashlib
 import json
@@ -25,6 +24,7 @@ from hypothesis import strategies as st
 
 from vlib.runner import Part, Out
 from vlib import aio
+from vlib.oneworker import prepare_loop, bounded
 from vlib.ref import descriptor as ref
 
 PROPERTY_ID = "C02"
@@ -81,44 +81,6 @@ def _lbry():
 
 # ---------------------------------------------------------------------------------------------------------------
 # helpers
-
-_EXECUTOR_SET = set()
-
-
-def _prepare_loop():
-    loop = aio.get_loop()
-    if id(loop) not in _EXECUTOR_SET:
-        loop.set_default_executor(concurrent.futures.ThreadPoolExecutor(max_workers=1))
-        _EXECUTOR_SET.add(id(loop))
-    return loop
-
-
-async def _barrier(loop):
-    for _ in range(3):
-        await asyncio.sleep(0)
-    await loop.run_in_executor(None, lambda: None)
-    for _ in range(4):
-        await asyncio.sleep(0)
-
-
-async def bounded(coro, loop, max_rounds):
-    """-> ('ok', result) | ('raised', exc) | ('hang', None); no wall clock involved"""
-    task = loop.create_task(coro)
-    for _ in range(max_rounds):
-        if task.done():
-            break
-        await _barrier(loop)
-    if not task.done():
-        task.cancel()
-        await asyncio.gather(task, return_exceptions=True)
-        return "hang", None
-    if task.cancelled():
-        return "raised", asyncio.CancelledError()
-    exc = task.exception()
-    if exc is not None:
-        return "raised", exc
-    return "ok", task.result()
-
 
 def expand(tag, seed, size):
     return hashlib.shake_256(b"c02:%s:%d" % (tag, seed)).digest(size) if size else b""
@@ -387,7 +349,7 @@ async def _run_stream(case, out):
 
 def run_stream(case):
     out = Out()
-    loop = _prepare_loop()
+    loop = prepare_loop()
     aio.run(_run_stream(case, out), loop)
     return out
 
@@ -746,7 +708,7 @@ async def _run_tamper(case, out):
 
 def run_tamper(case):
     out = Out()
-    loop = _prepare_loop()
+    loop = prepare_loop()
     aio.run(_run_tamper(case, out), loop)
     return out
 
